@@ -482,6 +482,26 @@ def run(ctx, R, tier):
             "the client accepts other message types as the answer of a call: `%s`" % (unparse(arg) if arg is not None else "None"))
 
     # streamed results: a stream's table key is made fresh per stream; two streams of one conversation must not answer each other's item requests (shared with C10-R3)
+    # the proxy adopts a connection only once the daemon has answered CONNECTOK: a connection published on the proxy earlier survives a refused or failed handshake as
+    # `_pyroConnection` (closed, or never accepted) - "already connected" from then on: the next call is sent on it instead of reconnecting, and fails for ever
+    cah3 = ctx.fn("Pyro5.client.Proxy.__pyroCreateConnection.connect_and_handshake")
+    cfg3 = ctx.cfg(cah3)
+    adopts = [st for st, t, k in stores_in(cah3.node) if k == "assign" and isinstance(t, ast.Attribute) and t.attr == "_pyroConnection"
+              and not (isinstance(st.value, ast.Constant) and st.value.value is None)]
+    if not adopts:
+        raise AnalysisError("connect_and_handshake: the store of the new connection into the proxy vanished")
+
+    def accepted(atom, pol):
+        if isinstance(atom, ast.Compare) and len(atom.ops) == 1 and isinstance(atom.ops[0], (ast.Eq, ast.NotEq)):
+            sides = [atom.left, atom.comparators[0]]
+            if any(ctx.resolves_to_object(x, cah3, "Pyro5.protocol.MSG_CONNECTOK") for x in sides if isinstance(x, (ast.Attribute, ast.Name))):
+                return (pol is True) == isinstance(atom.ops[0], ast.Eq)
+        return False
+    early_adopt = [st for st in adopts if not all(cfg3.guarded(n, lambda e: edge_has_fact(e, accepted)) for n in cfg3.nodes_for(st))]
+    R.check(not early_adopt, "C03-R8", "connect_and_handshake|connection-adopted-only-after-CONNECTOK", "the proxy's _pyroConnection is set only on the CONNECTOK branch of the handshake answer",
+            cah3.loc(early_adopt[0]) if early_adopt else cah3.loc(adopts[0]),
+            "`%s` publishes the connection on the proxy before the daemon accepted it: after a refused, timed-out or broken handshake the proxy keeps that connection, "
+            "takes itself for connected and sends the next call on it instead of connecting anew" % (unparse(early_adopt[0], 80) if early_adopt else ""))
     # a failed check must surface as the communication error it constructs: a name in the client or the wire code that nothing binds turns "reply out of sync" into NameError,
     # which the release-on-CommunicationError handler does not cover (the out-of-sync connection stays in use)
     from .common import names_bound
